@@ -526,3 +526,50 @@ func (eng *Engine) ifaceClausesFor(fn *ssa.Function) []*Clause {
 	}
 	return out
 }
+
+
+// encodeLemma: a closed formula over spec functions, literal regular languages and assumed axioms.
+func (eng *Engine) encodeLemma(c *Clause, uses []string) *Oblig {
+	fe := &FuncEnc{eng: eng, pre: &Prelude{declSet: map[string]bool{}}, sorts: newSorts(),
+		heapSorts: map[string]Sort{}, heapStable: map[string]bool{}, protected: map[string]types.Type{}, opCount: map[string]int{},
+		assumedCallees: map[string]bool{}, inlinedCallees: map[string]bool{}, usedContracts: map[string]bool{}, seqLen: map[string]string{}, linked: map[string]bool{}}
+	fe.top = &Frame{fe: fe, vals: map[ssa.Value]Term{}, tuples: map[ssa.Value][]Term{}}
+	st := &State{heap: map[string]string{}, alive: "true"}
+	env := &Env{fe: fe, st: st, old: st, vars: map[string]Term{}, calleeMode: true}
+	if p := eng.allPkgs[c.Call]; p != nil {
+		env.pkg = p.Types
+	}
+	for _, ax := range eng.specs.axioms {
+		if contains(uses, ax.Label) {
+			if f, err := env.evalBool(ax.Expr); err == nil {
+				fe.emit("(assert " + f + ") ; axiom")
+			}
+		}
+	}
+	body := c.Expr
+	// skolemise the outer universal quantifier so that a failing lemma comes with a witness
+	for body.Op == "forall" {
+		for _, b := range body.Binders {
+			T, k := env.resolveType(b.Type)
+			n := "p_" + b.Name
+			fe.declConst(n, k)
+			if k == SString {
+				fe.assume(fmt.Sprintf("(str.in_re %s (re.* %s))", n, reAnyByte))
+			}
+			if T != nil {
+				fe.assumeTypeInv(n, T)
+			}
+			env = env.with(b.Name, Term{n, k, T})
+		}
+		body = body.Args[0]
+	}
+	f, err := env.evalBool(body)
+	o := &Oblig{Kind: "lemma", Props: c.Props, Label: c.Label, Reach: "true", Formula: f, Src: c.Src, Fn: shortPkg(c.Call), prel: fe.pre}
+	if err != nil {
+		o.Err = err.Error()
+	}
+	prop := strings.Join(c.Props, "+")
+	o.ID = fmt.Sprintf("%s:%s:lemma:%s", prop, shortPkg(c.Call), c.Label)
+	fe.pre.decls = append(fe.sorts.Decls(), fe.pre.decls...)
+	return o
+}
